@@ -263,6 +263,7 @@ type Association struct {
 	willRetransmitReconfig bool
 
 	willSendShutdown         bool
+	shutdownDataAcked        uint32 // atomic: SHUTDOWN-SENT / SHUTDOWN-ACK-SENT was reached
 	willSendShutdownAck      bool
 	willSendShutdownComplete bool
 	shutdownCompletePending  bool
@@ -1040,6 +1041,14 @@ func (a *Association) Shutdown(ctx context.Context) error {
 
 	select {
 	case <-a.closeWriteLoopCh:
+		// The association is closed now - but an ABORT from the peer, a transport
+		// failure or a concurrent Close end it as well. Only if the shutdown
+		// sequence got as far as sending SHUTDOWN / SHUTDOWN ACK has everything
+		// written before been acknowledged by the peer.
+		if atomic.LoadUint32(&a.shutdownDataAcked) == 0 {
+			return fmt.Errorf("%w: before the shutdown of %s completed", ErrAssociationClosed, a.name)
+		}
+
 		return nil
 	case <-ctx.Done():
 		return ctx.Err()
@@ -1863,6 +1872,10 @@ func (a *Association) peerLastTSN() uint32 {
 // setState atomically sets the state of the Association.
 // The caller should hold the lock.
 func (a *Association) setState(newState uint32) {
+	if newState == shutdownSent || newState == shutdownAckSent {
+		// these states are only entered with no user data outstanding
+		atomic.StoreUint32(&a.shutdownDataAcked, 1)
+	}
 	oldState := atomic.SwapUint32(&a.state, newState)
 	if newState != oldState {
 		a.log.Debugf("[%s] state change: '%s' => '%s'",
